@@ -105,10 +105,16 @@ def run(res):
     srcs, stats = [], {}
     feats_all = ["compound-index"]
     for i in range(nprog):
-        g = gen.Gen(rng, features=feats_all if i % 5 == 0 else [], budget=budget)
+        feats = feats_all if i % 5 == 0 else (["defer"] if i % 5 in (1, 3) else [])
+        g = gen.Gen(rng, features=feats, budget=budget)
         srcs.append(g.program())
         for k, v in g.stats.items():
             stats[k] = stats.get(k, 0) + v
+    # lexical scoping of closures: nestings with shadowing after capture, frames of more than 8 locals, two activations
+    from lib import gen_closure as G
+    for i in range(max(200, nprog // 5)):
+        srcs.append(G.model_program(rng)[0])
+    stats["closure programs"] = max(200, nprog // 5)
     corpus = []
     for f in ("harvest.hex", "semgen.hex", "edge.hex"):
         for line in open(os.path.join(C.VERIF, "corpus", "core", f)):
